@@ -138,3 +138,28 @@ pub fn locate(d: &Diag, crate_dir: &Path, markers: &BTreeMap<String, Vec<Region>
     }
     best
 }
+
+#[cfg(test)]
+mod tests {
+    use super::*;
+
+    #[test]
+    fn maps_locations_to_regions() {
+        let dir = std::env::temp_dir().join(format!("lambdagen-diag-test-{}", std::process::id()));
+        let src = dir.join("src");
+        std::fs::create_dir_all(&src).unwrap();
+        let file = "// header\n// BEGIN SHAPE c=R_a=1_ret_nc_b=lin desc\nfn f() {\n    // MACRO BEGIN\n    let x = m!();\n    // MACRO END\n    twin();\n}\n// END SHAPE c=R_a=1_ret_nc_b=lin\npub const TABLE: u8 = 0;\n";
+        std::fs::write(src.join("shapes_00.rs"), file).unwrap();
+        let markers = scan_markers(&src).unwrap();
+        let r = &markers["shapes_00.rs"][0];
+        assert_eq!((r.begin, r.macro_begin, r.macro_end, r.end), (2, 4, 6, 9));
+        let out = "   Compiling x v0.1.0\nerror[E0308]: mismatched types\n  --> /somewhere/lambda/src/lib.rs:19:17\n   |\n  ::: src/shapes_00.rs:5:13\n   |\n5  |     let x = m!();\n   |             ---- in this macro invocation\n\nerror: twin broken\n --> src/shapes_00.rs:7:5\n\nerror: scaffold\n --> src/shapes_00.rs:10:1\n\nerror: other crate\n --> /somewhere/lambda/src/lib.rs:3:1\n\nerror: aborting due to 4 previous errors\n\nerror: could not compile `x` (bin \"x\") due to 4 previous errors\n";
+        let d = parse_diags(out);
+        assert_eq!(d.len(), 4);
+        assert_eq!(locate(&d[0], &dir, &markers), Where::Macro("c=R_a=1_ret_nc_b=lin".into()));
+        assert_eq!(locate(&d[1], &dir, &markers), Where::Twin("c=R_a=1_ret_nc_b=lin".into()));
+        assert_eq!(locate(&d[2], &dir, &markers), Where::Elsewhere);
+        assert_eq!(locate(&d[3], &dir, &markers), Where::Elsewhere);
+        let _ = std::fs::remove_dir_all(&dir);
+    }
+}
